@@ -445,6 +445,13 @@ func (ex *Exec) instrMods(in ssa.Instruction, li *loopInfo) {
 		} else {
 			ex.typeMods(deref(x.Type()), li)
 		}
+	case *ssa.Next:
+		if rg, ok := x.Iter.(*ssa.Range); ok {
+			if mt, isM := rg.X.Type().Underlying().(*types.Map); isM {
+				vn, vs := w.RangeVisitedArray(mt)
+				li.mods[vn] = vs
+			}
+		}
 	case *ssa.MakeSlice:
 		n, s := w.ElemArray(x.Type().Underlying().(*types.Slice).Elem())
 		li.mods[n] = s
